@@ -321,6 +321,40 @@ def exits_and_presets(L):
     return consts, presets, cwd_unwrap, [(msg, code) for msg, code, _ in exits]
 
 
+def run_filter_facts(L):
+    """the pathspec filter of checkpoint::run (src/commands/checkpoint.rs)"""
+    rel = "src/commands/checkpoint.rs"
+    src = L.read_src(rel)
+    fn = L.find_fn(src, "run", rel)
+    if "repo.path_is_in_workdir(&path_buf)" not in fn:
+        raise L.GenError("checkpoint::run: the work-dir filter `repo.path_is_in_workdir(&path_buf)` not found")
+    m = re.search(r"if\s+filtered\.is_empty\(\)\s*\{(.*?)\}\s*else\s*\{", fn, re.S)
+    if not m:
+        raise L.GenError("checkpoint::run: `if filtered.is_empty() {..} else {..}` not found")
+    blk = m.group(1)
+    flag = re.search(r"(\w+)\s*=\s*!\s*p\.is_empty\(\)\s*;", blk)
+    if flag:
+        # the flag must decide that nothing is gathered
+        if not re.search(r"let\s+files\s*=\s*if\s+" + flag.group(1) + r"\s*\{\s*Vec::new\(\)\s*\}\s*else\s*\{\s*get_all_tracked_files\(", fn):
+            raise L.GenError("checkpoint::run: the all-foreign flag no longer selects an empty file list")
+        foreign_all = False
+    else:
+        if not re.search(r"^\s*None\s*$", blk.strip(), re.M):
+            raise L.GenError("checkpoint::run: empty-filter branch of unknown shape")
+        foreign_all = True
+    # pathspec validation (the model describes the validated filter)
+    if ".filter(|relative| is_usable_pathspec(relative))" not in fn:
+        raise L.GenError("checkpoint::run: listed paths are not validated with is_usable_pathspec before they become "
+                         "pathspecs (the model describes the validated filter)")
+    up = L.find_fn(src, "is_usable_pathspec", rel)
+    body = re.sub(r"\s+", " ", up)
+    for need in ("relative.is_empty() || relative.contains('\\0')", 'relative.split(\'/\')', '"" | "." => {}',
+                 '".." => match depth.checked_sub(1)', "None => return false", "_ => depth += 1"):
+        if need not in body:
+            raise L.GenError(f"is_usable_pathspec: expected `{need}`")
+    return foreign_all
+
+
 # ------------------------------------------------------------------ serde shapes
 def serde_enum(L, rel, name):
     src = L.strip_comments(L.read_src(rel))
@@ -431,6 +465,9 @@ def generate(L):
                  ";\n   ".join("(" + s(p[0]) + ", " + L.coq_bool(p[2]) + ", " + str(p[3]) + ")" for p in presets) + "].")
     lines.append("(* ---- 3. *)")
     lines.append("Definition cwd_unwrap_panics : bool := " + L.coq_bool(cwd_unwrap) + ".")
+    foreign_all = run_filter_facts(L)
+    lines.append("(* checkpoint::run: a non-empty request whose paths are all filtered out — does it scan the whole work tree? *)")
+    lines.append("Definition foreign_request_scans_all : bool := " + L.coq_bool(foreign_all) + ".")
     lines.append("(* ---- 4. serde shapes: (field, type, has #[serde(default)]) in declaration order *)")
     lines.append("Definition v1_tag : list N := " + s(tag) + ".")
     lines.append("Definition v1_variants : list (list N * list (list N * ftype * bool)) :=\n  [" +
